@@ -296,6 +296,10 @@ class Server(_Server_):
         )
         self.serializer = serializer
         delattr(self, 'id_to_local_proxy_obj')  # disable this
+        self.mutex = threading.RLock()
+        # Re-entrant: `create` runs user code (a constructor, a factory) under this mutex, and that
+        # code may call `managed(...)`, which calls `create` again; a garbage collection triggered
+        # under the mutex may run the finalizer of a proxy, which calls `decref`.
 
     def _wrap_user_exc(self, exc):
         return RemoteException(exc)
